@@ -217,6 +217,9 @@ func genIndex(t *rapid.T, tb *Table, name string, o Opts) Index {
 		ix.Where = fmt.Sprintf(ix.Where, qcol(c))
 	}
 	ix.LowerKW = rapid.IntRange(0, 2).Draw(t, "lowerkw") == 0
+	if rapid.IntRange(0, 2).Draw(t, "loose") == 0 {
+		ix.Loose = rapid.IntRange(1, 3).Draw(t, "loosebits")
+	}
 	ix.Note = ix.Where != "" && rapid.IntRange(0, 2).Draw(t, "note") == 0
 	return ix
 }
